@@ -34,10 +34,11 @@ def find_cc(c, name):
     raise KeyError(name)
 
 
-def make_ctrl(mk, n, nlevels=1, conv=None, cparams=None, level_params=None, sweeper=None):
+def make_ctrl(mk, n, nlevels=1, conv=None, cparams=None, level_params=None, sweeper=None, M=1):
     lp = dict(restol=-1.0)
     lp.update(level_params or {})
     kw = dict(sweeper=sweeper) if sweeper else {}
+    kw['M'] = M
     c, trace = ctrl.make_controller(mk, n, nlevels=nlevels, conv_controllers=conv, cparams=dict(dict(mssdc_jac=False), **(cparams or {})), level_params=lp, **kw)
     for p, S in enumerate(c.MS):
         S.status.slot = p
@@ -251,13 +252,13 @@ class SpreadStepSizes(_Base):
 
 
 # ------------------------------------------------------------------------------------------- adaptivity
-def adaptivity_ctrl(mk, cls_name='Adaptivity', extra=None, n=1, sweeper=None):
+def adaptivity_ctrl(mk, cls_name='Adaptivity', extra=None, n=1, sweeper=None, M=1, level_params=None):
     A = cls_of(CCD + 'adaptivity.py', cls_name)
     params = dict(e_tol=1e-5)
     params.update(extra or {})
     if cls_name == 'AdaptivityRK':
         params['update_order'] = 3
-    c, tr = make_ctrl(mk, n, conv={A: params}, sweeper=sweeper)
+    c, tr = make_ctrl(mk, n, conv={A: params}, sweeper=sweeper, M=M, level_params=level_params)
     return c, find_cc(c, cls_name)
 
 
